@@ -1641,6 +1641,11 @@ class Stream(AbstractStream):
             self._imol.data = other._imol.data
         if phase and self._imol.data.ndim == 1:
             self._imol._phase = other._imol._phase
+        if self._imol.data.ndim == 2 and (flow or TP): # Keep phase views attached to the linked data
+            imol = self._imol
+            for phase, stream in self._streams.items():
+                if flow and phase in imol._phase_indexer: stream._imol = imol.get_phase(phase)
+                stream._thermal_condition = self._thermal_condition
             
     def unlink(self):
         """
